@@ -29,9 +29,9 @@ def NodePost (e : Env) (nt : NT) (s : St) (n : Node) (s' : St) : Prop :=
 def RecSpec (e : Env) (rec : NT → M Node) : Prop :=
   ∀ nt s, Inv e s → NTPre e nt s → Ok (rec nt e s) (NodePost e nt s)
 
-theorem Ok.bpost {α} {e : Env} {nb nb1 : NB} {s s1 : St} {o : Out α} {f : α → NB}
-    (h1 : BPost e nb s nb1 s1) (h : Ok o (fun a s' => BPost e nb1 s1 (f a) s')) :
-    Ok o (fun a s' => BPost e nb s (f a) s') :=
+theorem Ok.bpost {α} {d d2 : Nat} {e : Env} {nb nb1 : NB} {s s1 : St} {o : Out α} {f : α → NB}
+    (h1 : BPostD d e nb s nb1 s1) (h : Ok o (fun a s' => BPostD d2 e nb1 s1 (f a) s')) :
+    Ok o (fun a s' => BPostD d e nb s (f a) s') :=
   h.mono (fun _ _ h2 => h1.trans h2)
 
 section
@@ -115,22 +115,23 @@ theorem pipelineLoop_spec (hrec : RecSpec e rec) : ∀ (n : Nat) (nb : NB) (s : 
     · exact Ok_pure b1
 
 /-- recording an error does not disturb the builder -/
-theorem BPost.err {nb nb' : NB} {s s' : St} (h : BPost e nb s nb' s') (m : Msg) :
-    BPost e nb s nb' (errSt e s' m) :=
+theorem BPostD.err {d : Nat} {nb nb' : NB} {s s' : St} (h : BPostD d e nb s nb' s') (m : Msg) :
+    BPostD d e nb s nb' (errSt e s' m) :=
   ⟨⟨errSt_inv h.1.inv _, h.1.wfs, h.1.consec, h.1.sync⟩, h.2.1, h.2.2⟩
 
 theorem BInv.err {nb : NB} {s : St} (h : BInv e nb s) (m : Msg) : BInv e nb (errSt e s m) :=
   ⟨errSt_inv h.inv _, h.wfs, h.consec, h.sync⟩
 
 /-- changing the fields only -/
-theorem BPost.setf {nb nb' : NB} {s s' : St} (h : BPost e nb s nb' s') (f : Fields) :
-    BPost e nb s { nb' with f := f } s' :=
+theorem BPostD.setf {d : Nat} {nb nb' : NB} {s s' : St} (h : BPostD d e nb s nb' s') (f : Fields) :
+    BPostD d e nb s { nb' with f := f } s' :=
   ⟨h.1.congr rfl rfl, h.2.1, h.2.2⟩
 
-theorem pipelineBody_spec (hrec : RecSpec e rec) {nb : NB} {s : St} (h : BInv e nb s) :
-    Ok (pipelineBody rec nb e s) (fun nb' s' => BPost e nb s nb' s') := by
+theorem pipelineBody_specD {d : Nat} (hrec : RecSpec e rec) {nb : NB} {s : St}
+    (hfirst : Ok (rec .form e s) (fun f s' => BPostD d e nb s (nb.add f) s')) :
+    Ok (pipelineBody rec nb e s) (fun nb' s' => BPostD d e nb s nb' s') := by
   unfold pipelineBody
-  refine Ok_bind (child_add hrec .form trivial rfl h) ?_
+  refine Ok_bind hfirst ?_
   intro f s1 b1
   rw [bind_of_eq (loopFuel_eq _ _)]
   refine Ok_bind ((pipelineLoop_spec hrec _ _ s1 b1.1).bpost b1) ?_
@@ -147,7 +148,7 @@ theorem pipelineBody_spec (hrec : RecSpec e rec) {nb : NB} {s : St} (h : BInv e 
       refine Ok_bind (addSep_spec (BPre.of_fwd b3.1 f4)) ?_
       intro nb4 s4 ⟨hs, hb, hf⟩
       subst hs
-      have b4 : BPost e nb s nb4 (nextSt e s3) := b3.trans ⟨hb, hf, f4.2⟩
+      have b4 : BPostD d e nb s nb4 (nextSt e s3) := b3.trans (d2 := 0) ⟨hb, hf, f4.2⟩
       exact (parseSpaces_spec (nb := { nb4 with f := { nb4.f with flag := true } }) (hb.congr rfl rfl)).bpost
         (b4.setf _)
     · exact Ok_pure b3
@@ -163,12 +164,17 @@ theorem setMode_spec {nb : NB} {s : St} (sign : Bytes) (h : Inv e s) :
     rw [bind_of_eq (error_eq h _)]
     exact Ok_pure ⟨errSt_fwd h _, rfl, rfl, rfl⟩
 
-theorem redirRest_spec (hrec : RecSpec e rec) {nb1 : NB} {s : St} (hb1 : BInv e nb1 s) :
-    Ok (redirRest rec nb1 e s) (fun nb' s' => BPost e nb1 s nb' s') := by
+theorem pipelineBody_spec (hrec : RecSpec e rec) {nb : NB} {s : St} (h : BInv e nb s) :
+    Ok (pipelineBody rec nb e s) (fun nb' s' => BPost e nb s nb' s') :=
+  pipelineBody_specD hrec (child_add hrec .form trivial rfl h)
+
+theorem redirRest_specD {d : Nat} (hrec : RecSpec e rec) {nb1 : NB} {s : St} (hb1 : BInv e nb1 s)
+    (hskip : Ok (skipWhile isRedirSign (e.src.length + 2) e s) (fun _ s' => Fwd e s s' ∧ s.pos + d ≤ s'.pos)) :
+    Ok (redirRest rec nb1 e s) (fun nb' s' => BPostD d e nb1 s nb' s') := by
   unfold redirRest
   rw [bind_of_eq (getPos_eq _ _), bind_of_eq (loopFuel_eq _ _)]
-  refine Ok_bind (skipWhile_spec _ _ _ hb1.inv) ?_
-  intro _ s2 f2
+  refine Ok_bind hskip ?_
+  intro _ s2 ⟨f2, hd2⟩
   rw [bind_of_eq (getPos_eq _ _), bind_of_eq (sliceSrc_eq f2.2 f2.1.le)]
   refine Ok_bind (setMode_spec _ f2.1) ?_
   intro nb2 s3 ⟨f3, hp3, hf2, hc2⟩
@@ -192,8 +198,8 @@ theorem redirRest_spec (hrec : RecSpec e rec) {nb1 : NB} {s : St} (hb1 : BInv e 
   have hfin : (nb6.add right).frm = nb1.frm := by
     show nb6.frm = nb1.frm
     rw [hb6.2, b5.2.1, b4.2.1, hf3, hf2]
-  have hpos : s.pos ≤ s6.pos := by
-    have := f23.2; have := b4.2.2; have := b5.2.2; have := b6.2.2; omega
+  have hpos : s.pos + d ≤ s6.pos := by
+    have := f3.2; have := b4.2.2; have := b5.2.2; have := b6.2.2; omega
   split
   · split
     · rw [bind_of_eq (error_eq b6.1.inv _)]
@@ -201,6 +207,10 @@ theorem redirRest_spec (hrec : RecSpec e rec) {nb1 : NB} {s : St} (hb1 : BInv e 
     · rw [bind_of_eq (error_eq b6.1.inv _)]
       exact Ok_pure ⟨b6.1.err _, hfin, hpos⟩
   · exact Ok_pure ⟨b6.1, hfin, hpos⟩
+
+theorem redirRest_spec (hrec : RecSpec e rec) {nb1 : NB} {s : St} (hb1 : BInv e nb1 s) :
+    Ok (redirRest rec nb1 e s) (fun nb' s' => BPost e nb1 s nb' s') :=
+  redirRest_specD hrec hb1 ((skipWhile_spec _ _ _ hb1.inv).mono (fun _ _ f => ⟨f, f.2⟩))
 
 theorem redirBody_spec (hrec : RecSpec e rec) (left : Option Node) {nb : NB} {s : St}
     (h : BInv e nb s) (hnil : nb.children = []) (hfrm : nb.frm = s.pos)
@@ -220,8 +230,8 @@ theorem redirBody_spec (hrec : RecSpec e rec) (left : Option Node) {nb : NB} {s 
   exact (redirRest_spec hrec hb1.1).mono (fun nb' s' b => ⟨b.1, b.2.1.trans hb1.2, b.2.2⟩)
 
 /-- add a child, then `parseSpaces`/`parseSpacesAndNewlines` -/
-theorem add_spaces (nl : Bool) {nb : NB} {s s1 : St} {n : Node} (b1 : BPost e nb s (nb.add n) s1) :
-    Ok (parseSpacesInner (nb.add n) nl e s1) (fun nb' s' => BPost e nb s nb' s') :=
+theorem add_spaces {d : Nat} (nl : Bool) {nb : NB} {s s1 : St} {n : Node} (b1 : BPostD d e nb s (nb.add n) s1) :
+    Ok (parseSpacesInner (nb.add n) nl e s1) (fun nb' s' => BPostD d e nb s nb' s') :=
   (parseSpacesInner_spec nl b1.1).bpost b1
 
 theorem formLoop_spec (hrec : RecSpec e rec) : ∀ (n : Nat) (nb : NB) (s : St), BInv e nb s →
@@ -428,15 +438,16 @@ theorem compoundBody_spec (hrec : RecSpec e rec) {nb : NB} {s : St} (h : BInv e 
   rw [bind_of_eq (loopFuel_eq _ _)]
   exact (compoundLoop_spec hrec _ _ nb1 s1 b1.1).bpost b1
 
-theorem mapPairBody_spec (hrec : RecSpec e rec) {nb : NB} {s : St} (h : BInv e nb s) :
-    Ok (mapPairBody rec nb e s) (fun nb' s' => BPost e nb s nb' s') := by
+theorem mapPairBody_specD {d : Nat} (hrec : RecSpec e rec) {nb : NB} {s : St}
+    (hfirst : Ok (parseSep nb 38 e s) (fun p s' => BPostD d e nb s p.2 s')) :
+    Ok (mapPairBody rec nb e s) (fun nb' s' => BPostD d e nb s nb' s') := by
   unfold mapPairBody
-  refine Ok_bind (parseSep_spec _ h) ?_
+  refine Ok_bind hfirst ?_
   intro ⟨_, nb1⟩ s1 b1
   simp only []
   refine Ok_bind ((child_add hrec (.compound LHSExpr) trivial rfl b1.1).bpost b1) ?_
   intro key s2 b2
-  refine Ok_bind (P := fun _ s3 => BPost e nb s (nb1.add key) s3) ?_ ?_
+  refine Ok_bind (P := fun _ s3 => BPostD d e nb s (nb1.add key) s3) ?_ ?_
   · split
     · exact Ok_of_eq (error_eq b2.1.inv _) (b2.err _)
     · exact Ok_pure b2
@@ -451,6 +462,10 @@ theorem mapPairBody_spec (hrec : RecSpec e rec) {nb : NB} {s : St} (h : BInv e n
     intro v s6 b6
     exact Ok_pure b6
   · exact Ok_pure b4
+
+theorem mapPairBody_spec (hrec : RecSpec e rec) {nb : NB} {s : St} (h : BInv e nb s) :
+    Ok (mapPairBody rec nb e s) (fun nb' s' => BPost e nb s nb' s') :=
+  mapPairBody_specD hrec (parseSep_spec _ h)
 
 end
 end C01
